@@ -36,6 +36,13 @@ CHECKS["C10"] = ("other", "path-complete bounded execution of the real NewGraph 
   "trusted: go/ssa, the interpreter fork (go/types itself is interpreted; sync/atomic and sync.Mutex inside it stubbed as sequential); bounds: <= 3 providers, <= 2 unsupplied argument types + context.Context; larger declarations only through the corpus gate",
   "symbolic interpreter over go/ssa: path-complete bounded execution (the quantifier is program structure; forks on nondeterministic inputs, no solver work) + corpus signature gate", "§5 C10")
 
+CHECKS["C04"] = ("other", "(B) path-complete bounded execution of the real createASTTypeExpr on every type of constructor depth <= 1 (thorough: 2) built with the real go/types constructors, compared with a reference spelling; (A)/(C) gates: generated packages of the feature, naming, hard-coded-identifier, multi-file and second-injector families must type-check and no generated local may shadow a package-level, predeclared or imported name. Four genuine defects found this way were fixed (86df868, 7aaefdb, a97fa84, c1c77a1). 'Compiles' as a universal statement is outside the claim.",
+  "trusted: go/ssa, the interpreter fork (go/types interpreted), the reference renderer in the harness, go/types as compile oracle for the gates; bounds: type constructor depth, corpus families",
+  "symbolic interpreter over go/ssa: path-complete bounded execution of createASTTypeExpr over enumerated type shapes + go/types compile/hygiene gates on generated corpus packages", "§5 C04")
+CHECKS["C11"] = ("other", "history dimension: the real VarPool serves one symbolic request history twice (second allocator also sees the injector name of a previous output) and must answer identically (SMT strings); map-order dimension: Generate's import block, findMaximumAntichainSize and GetUsedImports run under every map iteration order (the interpreter picks the permutation) with equal results; map-range sites listed from SSA; gates: examples regenerate byte-identically, a determinism corpus is regenerated 4x (GOMAXPROCS 1/16, previous output present, truncated previous output) byte-identically. The defect found (K9) was fixed (e648b7e).",
+  "trusted: go/ssa, the interpreter fork, format.Node stub, cvc5/z3; the parser (packages.Load) is reached only by the gates; GOMAXPROCS/process randomness only through map order (no go statement in the generator, checked on SSA) and repeated CLI runs",
+  "symbolic execution of go/ssa + SMT strings (two-run equality), nondeterministic map iteration order in the interpreter, CLI rerun gates", "§5 C11")
+
 NA_REASON = "check under construction in this session (DESIGN.md §10 build order); not claimed yet"
 
 def main():
